@@ -1,4 +1,5 @@
 import Fdo.Proto.ServerIsolation
+import Fdo.Facts
 import Fdo.Svc.PipelineProofs
 /-
 C19 — concurrent onboardings through one server are isolated (the logical part).
@@ -185,5 +186,18 @@ example :
     let s₀ := St.init 1 [.next, .write [1, 2], .yield, .next, .write [3]]
     ∃ s₁ s₂, Step s₀ s₁ ∧ Step s₁ s₂ ∧ s₂.queued = 1 ∧ ¬ s₂.final := by
   refine ⟨_, _, Step.mNext _ _ rfl (by decide), Step.mWrite _ [1, 2] _ rfl, by decide, by simp [St.final, St.init]⟩
+
+/-- **What the source does, and in which goroutine** (regenerated call-order and `go`-statement facts):
+in `exchangeServiceInfo` the owner's messages of an ordinary round are handled in a goroutine, the messages
+that arrive with IsDone are handled *synchronously* (once outside any `go` statement) while what the device
+modules still write is discarded in a goroutine, and Done is sent after that; in the SQLite store the token
+secret is inserted-or-ignored first and then read back, so every concurrent first request ends up with the
+stored secret. -/
+theorem code_facts :
+    Fdo.Facts.atLeast "exchangeServiceInfo" "handleOwnerModuleMessages" 2 = true ∧
+    Fdo.Facts.syncCount "exchangeServiceInfo" "handleOwnerModuleMessages" = 1 ∧
+    (Fdo.Facts.goCallsOf "exchangeServiceInfo").contains "discardDeviceInfo" = true ∧
+    Fdo.Facts.before "DB.loadOrStoreSecret" "insertOrIgnore" "query" = true ∧
+    Fdo.Facts.before "DB.NewToken" "loadOrStoreSecret" "insert" = true := by decide +kernel
 
 end Fdo.Props.C19
